@@ -1,4 +1,5 @@
 import BarterModel.Lemmas.Index
+import BarterModel.Lemmas.Review2_C11
 /-!
 # C11 — Instrument/asset/exchange indices are dense, unique and consistently resolved
 
@@ -261,6 +262,224 @@ example : build exDefs = build (exDefs.reverse ++ exDefs.take 2) :=
   order_independent _ _ (by intro d; simp [exDefs]; grind)
 example : ¬ WFAssets [⟨0, 5, 5, ⟨1, 1⟩, ⟨1, 2⟩, 1, .spot, none⟩] := by decide
 example : ¬ WFNames [⟨0, 5, 5, ⟨1, 1⟩, ⟨2, 2⟩, 1, .spot, none⟩, ⟨1, 5, 5, ⟨1, 1⟩, ⟨2, 2⟩, 1, .spot, none⟩] := by
+  decide
+
+/-! ## Review round 2 (audit/REVIEW-notes.md, section C11)
+
+Additions answering the independent review: a weaker sufficient hypothesis for the instrument
+lookups (C11-3), a hypothesis-free "every definition is indexed exactly once" (C11-4), and
+kernel-checked witnesses that show what the model – and, by the correspondence run, the code – does
+at the two points the hypotheses `WFNames` / `WFAssets` exclude (C11-1, C11-2).
+
+Status of the hypotheses. `WFNames` is the *documented* precondition of the code, not a silent
+restriction of this file: `/repo/barter-instrument/src/instrument/name.rs:7-10` documents
+`InstrumentNameInternal` as
+
+> "Barter lowercase `SmolStr` representation for an [`Instrument`](super::Instrument) - unique
+> across all exchanges. Note: Binance btc_usdt spot is not considered the same instrument as
+> Bitfinex btc_usdt spot."
+
+and `InstrumentNameInternal::new` (name.rs:15-17) repeats "Should be unique across exchanges."
+Nothing in the code enforces it (`IndexedInstruments::new` accepts any collection), and the
+engine's `InstrumentStates` is an `IndexMap` keyed by that name alone
+(`barter/src/engine/state/instrument/mod.rs:419-452`), which is where a violation bites
+(`shared_internal_name_witness`). `WFAssets` has no such sentence in the documentation
+(`asset/name.rs:6-11` only says internal asset names are "not unique across exchanges" and that an
+exchange may call "btc" "xbt"): it stays a hypothesis of this file, with its excluded point made
+visible by `asset_two_exchange_names_witness`. -/
+
+/-- Per-exchange uniqueness of instrument internal names: what `find_instrument_index` actually
+keys on (exchange id *and* internal name, index/mod.rs:142-157). Strictly weaker than `WFNames`
+(`wfNamesEx_of_wfNames`; `twoEx` below satisfies it and violates `WFNames`). -/
+def WFNamesEx (defs : List Def) : Prop :=
+  ∀ a ∈ defs, ∀ b ∈ defs, a.exchange = b.exchange → a.nameInternal = b.nameInternal → a = b
+
+instance (defs : List Def) : Decidable (WFNamesEx defs) := by unfold WFNamesEx; infer_instance
+
+/-- The documented precondition `WFNames` (names unique across all exchanges) implies the
+per-exchange one, so `lookups_inverse_instrument_weak` subsumes `lookups_inverse_instrument`
+(review C11-3). No other hypothesis. -/
+theorem wfNamesEx_of_wfNames {defs : List Def} (h : WFNames defs) : WFNamesEx defs :=
+  fun a ha b hb _ hn => h a ha b hb hn
+
+/-- (2) instruments, minimal hypothesis (review C11-3): `find_instrument_index (exchange,
+name_internal)` and `find_instrument` are mutual inverses as soon as internal names are unique
+*within each exchange* (`WFNamesEx`); global uniqueness (`WFNames`) is not needed for the lookups.
+Hypotheses: `build defs = some ii`, `WFNamesEx defs`. The statement is that of
+`lookups_inverse_instrument`, which is kept unchanged. -/
+theorem lookups_inverse_instrument_weak {defs : List Def} {ii : Indexed} (h : build defs = some ii)
+    (hwf : WFNamesEx defs) (e ni k : Nat) :
+    ii.findInstrumentIndex e ni = some k ↔
+      ∃ i, ii.findInstrument k = some i ∧ i.exchange.value = e ∧ i.nameInternal = ni := by
+  rw [findInstrument_eq defs ii h, findInstrumentIndex_eq defs ii h,
+    findIdx?_eq_some_iff_unique_pos]
+  · simp only [List.getElem?_map, decide_eq_true_eq]
+  · intro j1 j2 x y hx hy px py
+    simp only [List.getElem?_map, Option.map_eq_some_iff] at hx hy
+    obtain ⟨x', hx', rfl⟩ := hx
+    obtain ⟨y', hy', rfl⟩ := hy
+    simp only [decide_eq_true_eq] at px py
+    obtain ⟨d1, hd1, _, e1, _, n1, _⟩ := build_instrument_at defs ii h j1 x' hx'
+    obtain ⟨d2, hd2, _, e2, _, n2, _⟩ := build_instrument_at defs ii h j2 y' hy'
+    have m1 : d1 ∈ defs := (mem_sortedDefs _ _).mp (List.mem_iff_getElem?.mpr ⟨_, hd1⟩)
+    have m2 : d2 ∈ defs := (mem_sortedDefs _ _).mp (List.mem_iff_getElem?.mpr ⟨_, hd2⟩)
+    have e : d1 = d2 :=
+      hwf d1 m1 d2 m2 (by rw [← e1, ← e2, px.1, py.1]) (by rw [← n1, ← n2, px.2, py.2])
+    subst e
+    have hlt : j1 < (sortedDefs defs).length := (List.getElem?_eq_some_iff.mp hd1).1
+    exact (List.getElem?_inj hlt (nodup_sortedDefs defs)).mp (by rw [hd1, hd2])
+
+/-- (1b) **every instrument definition is indexed exactly once – no hypothesis** (review C11-4).
+For every input list `defs` (any order, repeats, ill-formed names or assets) on which `build`
+succeeds (it always does, `build_total`) there is a list `ds` of definitions such that
+* `ds` has no repeats and exactly the members of `defs` – so every distinct definition of the
+  input occurs in `ds` exactly once (`count = 1`), and `ds` is a permutation of `specInstruments`;
+* the instrument table has the length of `ds`, has no repeated entry, and its entry at position
+  `k` *is* the builder's indexing closure (builder.rs:88-113) applied to the `k`-th definition of
+  `ds` with index `k`: it carries key `k` and that definition's exchange id, internal name and
+  exchange name.
+So positions of the instrument table and distinct definitions of the input correspond one to one.
+What is *not* claimed without `WFAssets` is that the asset keys of entry `k` read back to the
+assets of that definition (`references_resolve` needs `WFAssets`;
+`asset_two_exchange_names_witness` shows why), which is also why "exactly once" is stated through
+the positions of `ds` and not by counting read-back definitions in the output: at the excluded
+point two distinct definitions can be indexed to entries that differ in their key only. -/
+theorem each_instrument_exactly_once {defs : List Def} {ii : Indexed} (h : build defs = some ii) :
+    ∃ ds : List Def,
+      ds.Nodup ∧ (∀ d, d ∈ ds ↔ d ∈ defs) ∧ (∀ d ∈ defs, ds.count d = 1) ∧
+      ds.Perm (specInstruments defs) ∧
+      ii.instruments.length = ds.length ∧ ii.instruments.Nodup ∧
+      ∀ (k : Nat) (d : Def), ds[k]? = some d →
+        ii.instruments[k]? = indexInstrument ii.exchanges ii.assets ⟨k, d⟩ ∧
+        ∃ i : IInstrument, ii.instruments[k]? = some ⟨k, i⟩ ∧ i.exchange.value = d.exchange ∧
+          i.nameInternal = d.nameInternal ∧ i.nameExchange = d.nameExchange := by
+  obtain ⟨_, _, hlen, hget⟩ := build_some defs ii h
+  have hnd := nodup_sortedDefs defs
+  refine ⟨sortedDefs defs, hnd, mem_sortedDefs defs, ?_,
+    perm_sortDedup_specDistinct _ Instrument.sortKey_inj _, hlen, ?_, ?_⟩
+  · intro d hd
+    have h1 := List.nodup_iff_count.mp hnd d
+    have h2 := List.count_pos_iff.mpr ((mem_sortedDefs defs d).mpr hd)
+    omega
+  · rw [List.nodup_iff_pairwise_ne, List.pairwise_iff_getElem]
+    intro j1 j2 hj1 hj2 hlt he
+    obtain ⟨_, _, k1, _⟩ := build_instrument_at defs ii h j1 _ (List.getElem?_eq_getElem hj1)
+    obtain ⟨_, _, k2, _⟩ := build_instrument_at defs ii h j2 _ (List.getElem?_eq_getElem hj2)
+    rw [he] at k1
+    omega
+  · intro k d hk
+    obtain ⟨i, hi, he, _, hn, hne, _⟩ := hget k d hk
+    refine ⟨?_, i, hi, he, hn, hne⟩
+    obtain ⟨ins, hb, _, hg⟩ := build_spec defs
+    rw [hb] at h; cases h
+    exact hg k d hk
+
+/-! ### The excluded points, made visible
+
+`build` sorts with `List.mergeSort` (well-founded recursion: does not reduce in the kernel), so the
+two concrete results below are obtained through `build_eq_of_tables` (Lemmas/Review2_C11.lean: a
+strictly ascending list with the same members *is* the sorted, deduplicated list) and then
+`decide +kernel` on the traversal. -/
+
+/-- The same instrument `name_internal` (5) on two exchanges (0 and 1): violates `WFNames`,
+satisfies `WFNamesEx` and `WFAssets`. -/
+def twoEx : List Def :=
+  [⟨0, 5, 5, ⟨1, 1⟩, ⟨2, 2⟩, 1, .spot, none⟩, ⟨1, 5, 5, ⟨1, 1⟩, ⟨2, 2⟩, 1, .spot, none⟩]
+
+/-- What `build twoEx` returns. -/
+def twoExIndexed : Indexed :=
+  { exchanges := [⟨0, 0⟩, ⟨1, 1⟩],
+    assets := [⟨0, ⟨0, ⟨1, 1⟩⟩⟩, ⟨1, ⟨0, ⟨2, 2⟩⟩⟩, ⟨2, ⟨1, ⟨1, 1⟩⟩⟩, ⟨3, ⟨1, ⟨2, 2⟩⟩⟩],
+    instruments := [⟨0, ⟨⟨0, 0⟩, 5, 5, 0, 1, 1, .spot, none⟩⟩, ⟨1, ⟨⟨1, 1⟩, 5, 5, 2, 3, 1, .spot, none⟩⟩] }
+
+/-- Concrete evaluation of the builder on `twoEx` (kernel-checked). -/
+theorem build_twoEx : build twoEx = some twoExIndexed := by
+  rw [build_eq_of_tables twoEx [0, 1] [⟨0, ⟨1, 1⟩⟩, ⟨0, ⟨2, 2⟩⟩, ⟨1, ⟨1, 1⟩⟩, ⟨1, ⟨2, 2⟩⟩] twoEx
+    (by decide) (by decide) (by decide) (by decide) (by decide) (by decide) (by decide)
+    (by decide) (by decide)]
+  decide +kernel
+
+/-- **Witness for the point `WFNames` excludes** (review C11-2): the same `name_internal` on two
+exchanges. Concrete, kernel-checked, no hypothesis. On `twoEx`
+* the index itself is fine: 2 instruments, and the lookups by (exchange, name) still find index 0
+  resp. 1 (this is `lookups_inverse_instrument_weak`: `WFNamesEx twoEx` holds);
+* but the engine's `InstrumentStates` (`generate_indexed_instrument_states`, an `IndexMap` keyed by
+  `name_internal` alone) comes out SHORTER than the index – 1 entry for 2 instruments: the second
+  insert overwrites the first, so position 0 holds the state of the instrument with index **1**
+  and position 1 does not exist. Position ≠ index: the conclusion of `tables_aligned_instruments`
+  is false at `k = 0` (last clause), and `getIndex … 1 = none` is the point where the code's
+  `InstrumentStates::instrument_index(1)` panics ("InstrumentStates does not contain",
+  engine/state/instrument/mod.rs:63-68; the reviewer observed the panic on the real code).
+This violates the documented precondition quoted in the section header ("unique across all
+exchanges", name.rs:7-10); the witness records that the code does not check it. -/
+theorem shared_internal_name_witness :
+    WFNamesEx twoEx ∧ WFAssets twoEx ∧ ¬ WFNames twoEx ∧
+    ∃ ii, build twoEx = some ii ∧
+      ii.instruments.length = 2 ∧ (instrumentStates ii).length = 1 ∧
+      ii.findInstrumentIndex 0 5 = some 0 ∧ ii.findInstrumentIndex 1 5 = some 1 ∧
+      (getIndex (instrumentStates ii) 0).map (·.1) = some 1 ∧
+      getIndex (instrumentStates ii) 1 = none ∧
+      getIndex (instrumentStates ii) 0 ≠
+        ii.instruments[0]?.map (fun x => (x.key, x.value.mapExchangeKey x.value.exchange.key)) :=
+  ⟨by decide, by decide, by decide, twoExIndexed, build_twoEx, by decide +kernel⟩
+
+/-- One exchange (0), one asset internal name (1) under two exchange names (9 in the first
+definition, 1 in the second): violates `WFAssets`, satisfies `WFNames`. -/
+def badAssets : List Def :=
+  [⟨0, 5, 5, ⟨1, 9⟩, ⟨2, 2⟩, 1, .spot, none⟩, ⟨0, 6, 6, ⟨1, 1⟩, ⟨2, 2⟩, 1, .spot, none⟩]
+
+/-- What `build badAssets` returns. -/
+def badAssetsIndexed : Indexed :=
+  { exchanges := [⟨0, 0⟩],
+    assets := [⟨0, ⟨0, ⟨1, 1⟩⟩⟩, ⟨1, ⟨0, ⟨1, 9⟩⟩⟩, ⟨2, ⟨0, ⟨2, 2⟩⟩⟩],
+    instruments := [⟨0, ⟨⟨0, 0⟩, 5, 5, 0, 2, 1, .spot, none⟩⟩, ⟨1, ⟨⟨0, 0⟩, 6, 6, 0, 2, 1, .spot, none⟩⟩] }
+
+/-- Concrete evaluation of the builder on `badAssets` (kernel-checked). -/
+theorem build_badAssets : build badAssets = some badAssetsIndexed := by
+  rw [build_eq_of_tables badAssets [0] [⟨0, ⟨1, 1⟩⟩, ⟨0, ⟨1, 9⟩⟩, ⟨0, ⟨2, 2⟩⟩] badAssets
+    (by decide) (by decide) (by decide) (by decide) (by decide) (by decide) (by decide)
+    (by decide) (by decide)]
+  decide +kernel
+
+/-- **Witness for the point `WFAssets` excludes** (review C11-1): on one exchange, one asset
+internal name under two different exchange names. Concrete, kernel-checked, no hypothesis. On
+`badAssets`
+* the asset table gets TWO entries for (exchange 0, internal name 1) – indices 0 and 1 – because
+  the builder deduplicates whole `ExchangeAsset`s, exchange name included;
+* the lookups do not round-trip: `find_asset 1` is an asset named (0, 1), yet
+  `find_asset_index (0, 1)` answers 0 (first match) – the `←` direction of `lookups_inverse_asset`
+  fails at `k = 1`;
+* both instruments get base asset key 0, so the definition given with base `⟨1, 9⟩` (it is a
+  member of the input) reads back with base `⟨1, 1⟩`: no entry of the instrument table resolves
+  to it – the conclusion of `references_resolve` fails;
+* the engine's `AssetStates` (`generate_empty_indexed_asset_states`, `IndexMap` keyed by
+  (exchange, internal name)) has 2 entries for 3 indexed assets: position 0 holds the asset data
+  of index **1** (`⟨1, 9⟩` overwrote `⟨1, 1⟩`), position 1 holds the asset with index 2, and
+  position 2 does not exist (`AssetStates::asset_index(2)` panics,
+  engine/state/asset/mod.rs:33-38) – the conclusion of `tables_aligned_assets` fails.
+Unlike `WFNames`, this precondition is not written in the code's documentation (see the section
+header); it remains a hypothesis of `references_resolve`, `lookups_inverse_asset`,
+`tables_aligned_assets`, `resolve_by_name` and `engine_tables_resolve`. -/
+theorem asset_two_exchange_names_witness :
+    ¬ WFAssets badAssets ∧ WFNames badAssets ∧
+    ∃ ii, build badAssets = some ii ∧
+      ii.assets.map (·.value) = [⟨0, ⟨1, 1⟩⟩, ⟨0, ⟨1, 9⟩⟩, ⟨0, ⟨2, 2⟩⟩] ∧
+      ii.findAsset 1 = some ⟨0, ⟨1, 9⟩⟩ ∧ ii.findAssetIndex 0 1 = some 0 ∧
+      (ii.instruments.map (fun x => resolve ii x.value)) =
+        [some ⟨0, 5, 5, ⟨1, 1⟩, ⟨2, 2⟩, 1, .spot, none⟩,
+         some ⟨0, 6, 6, ⟨1, 1⟩, ⟨2, 2⟩, 1, .spot, none⟩] ∧
+      (⟨0, 5, 5, ⟨1, 9⟩, ⟨2, 2⟩, 1, .spot, none⟩ : Def) ∈ badAssets ∧
+      (∀ x ∈ ii.instruments, resolve ii x.value ≠ some ⟨0, 5, 5, ⟨1, 9⟩, ⟨2, 2⟩, 1, .spot, none⟩) ∧
+      ii.assets.length = 3 ∧ (assetStates ii).length = 2 ∧
+      (assetStates ii)[0]? = some ((0, 1), ⟨1, 9⟩) ∧
+      (assetStates ii)[1]? = some ((0, 2), ⟨2, 2⟩) ∧ (assetStates ii)[2]? = none :=
+  ⟨by decide, by decide, badAssetsIndexed, build_badAssets, by decide +kernel⟩
+
+/-! Non-vacuity of the new hypothesis: the file's well-formed example satisfies `WFNamesEx`, and
+`WFNamesEx` is strictly weaker than `WFNames` (on `twoEx`) but not trivially true. -/
+example : WFNamesEx exDefs := by decide
+example : WFNamesEx twoEx ∧ ¬ WFNames twoEx := by decide
+example : ¬ WFNamesEx [⟨0, 5, 5, ⟨1, 1⟩, ⟨2, 2⟩, 1, .spot, none⟩, ⟨0, 5, 6, ⟨1, 1⟩, ⟨2, 2⟩, 1, .spot, none⟩] := by
   decide
 
 end BarterModel.Props.C11
